@@ -144,6 +144,20 @@ def run_resize_array(ctx):
         if not ctx.mine(idx):
             continue
         if not all(admissible(a, b, o, mode) for a, b, o in zip(shp, newshp, offs)):
+            # padding longer than the mode can fill from the array (documented ValueError), on whichever side: must be refused,
+            # in both directions, never answered with an array
+            growth_ok = all((b <= a and o + b <= a) or (b > a and 0 <= o <= b - a) for a, b, o in zip(shp, newshp, offs))
+            if growth_ok and mode in ('periodic', 'symmetric', 'order1') and min(shp) >= 1:
+                for direction in ('forward', 'adjoint'):
+                    ctx.ev('resize-reference')
+                    try:
+                        src = np.ones(shp if direction == 'forward' else newshp)
+                        res = resize_array(src, newshp if direction == 'forward' else shp, offs, mode, 0, direction=direction)
+                        ctx.violation('resize_array', '%s;%s;padding-too-long' % (mode, direction), 'bad-input-accepted', shp=shp, newshp=newshp, offs=offs)
+                    except ValueError:
+                        pass
+                    except Exception as e:
+                        ctx.violation('resize_array', '%s;%s;padding-too-long' % (mode, direction), 'wrong-exception:' + type(e).__name__, shp=shp, newshp=newshp, offs=offs)
             ctx.skip('inadmissible padding for mode (Appendix B)')
             continue
         for dt, order in (('float64', 'C'), ('complex128', 'F'), ('int64', 'C'), ('float32', 'F')):
